@@ -82,10 +82,6 @@ package flyt
 //@   ensures [C05] !isBatch(node) && sawCancel ==> err != nil && Is(err, ctxErr(ctx))
 //@   ensures [C05] !isBatch(node) && cancelled@entry ==> callbacks == callbacks@entry && err != nil && Is(err, ctxErr(ctx))
 
-//@ func runBatch(ctx, node, shared) (act, err)
-//@   trusted
-//@   havoc user
-//@   ensures [C05] true
 
 // ---------------------------------------------------------------------------
 // Flows (C03 C04 C05 C10)
@@ -740,3 +736,117 @@ package flyt
 //@   ensures [C16] has(s.data, key) && s.data[key] != nil ==> bindSpec(s.data[key], dest, err, old(pointee(dest)), pointee(dest))
 //@   ensures [C16] has(s.data, key) && !okDest(dest) ==> err != nil && pointee(dest) == old(pointee(dest))
 
+
+// ---------------------------------------------------------------------------
+// Batches (C02 C06 C07 C08 C09 C11 C18 C20)
+// ---------------------------------------------------------------------------
+
+// how one item's outcome is stored in its slot: an error as an error result, a Result as itself, anything else wrapped once
+//@ spec func slotOf(v any, e error) Result = e != nil ? Result{nil, e} : wrapAny(v)
+
+//@ func runExecWithRetries(ctx, node, item) (res, err)
+//@   requires node != nil && ctx != nil
+//@   havoc user
+//@   ghost nExec int = 0; nFb int = 0; lastRes any = nil; lastErr error = nil; attErr error = nil; lastEnd int = now
+//@   on call Node.Exec(n, c, p) returns (v, e)
+//@     requires [C07] n == node && c == ctx && p == box(item, Result) && nFb == 0
+//@     requires [C02] nExec < budget(node) && (nExec > 0 ==> attErr != nil)
+//@     requires [C11] !cancelled
+//@     requires [C20] nExec > 0 && waitOf(node) > 0 ==> now >= lastEnd + waitOf(node)
+//@     effect nExec++; lastRes = v; lastErr = e; attErr = e; lastEnd = now
+//@   on call FallbackNode.ExecFallback(n, p, e0) returns (v, e)
+//@     requires [C02,C07] n == node && nExec == budget(node) && attErr != nil && p == box(item, Result) && e0 == attErr && nFb == 0
+//@     effect nFb = 1; lastRes = v; lastErr = e
+//@   loop 1 invariant nExec >= 0 && nFb == 0 && attErr == lastErr && !sawCancel && (nExec > 0 ==> lastErr != nil)
+//@   loop 1 invariant [C02] nExec <= budget(node)
+//@   loop 1 invariant [C20] lastEnd <= now
+//@   loop 1 invariant [C11] cancelled@entry ==> callbacks == callbacks@entry && nExec == 0
+//@   loop 1 decreases [C02] budget(node) - nExec
+//@   ensures [C02] !sawCancel ==> nExec >= 1 && nExec <= budget(node) && (nFb == 1 <==> implements(node, FallbackNode) && attErr != nil && nExec == budget(node))
+//@   ensures [C02] !sawCancel && attErr == nil ==> nFb == 0
+//@   ensures [C07] !sawCancel ==> err == lastErr && res == (nFb == 0 && lastErr != nil ? nil : lastRes)
+//@   ensures [C11,C20] sawCancel ==> err != nil && Is(err, ctxErr(ctx))
+//@   ensures [C11] old(cancelled) ==> callbacks == old(callbacks) && err != nil
+
+//@ func runBatchSequential(ctx, node, items, results, errorHandling) ()
+//@   requires node != nil && ctx != nil && len(results) == len(items) && sarr(results) != sarr(items)
+//@   havoc user
+//@   assigns contents(results)
+//@   ghost i int = 0; cnt [int]int = zeroArr([int]int); outV [int]any = zeroArr([int]any); outE [int]error = zeroArr([int]error); stopped bool = false
+//@   on call runExecWithRetries(c, n, it) returns (v, e)
+//@     requires [C06] c == ctx && n == node && 0 <= i && i < len(items) && it == items[i]
+//@     requires [C07] cnt[i] == 0
+//@     requires [C09] !stopped
+//@     requires [C11] !cancelled
+//@     effect cnt[i] = cnt[i] + 1; outV[i] = v; outE[i] = e; stopped = (e != nil && errorHandling == "stop")
+//@   loop 1 step i++
+//@   loop 1 invariant 0 <= i && i <= len(items) && !stopped
+//@   loop 1 invariant forall j int :: (j >= i ==> cnt[j] == 0) && (0 <= j && j < i ==> cnt[j] == 0 || cnt[j] == 1)
+//@   loop 1 invariant [C06] forall j int :: 0 <= j && j < i && cnt[j] == 1 ==> results[j] == slotOf(outV[j], outE[j])
+//@   loop 1 invariant [C09,C11] forall j int :: 0 <= j && j < i && cnt[j] == 0 ==> results[j].err != nil
+//@   loop 1 invariant [C07] !cancelled ==> (forall j int :: 0 <= j && j < i ==> cnt[j] == 1)
+//@   loop 1 decreases len(items) - i
+//@   ensures [C06] forall j int :: 0 <= j && j < len(items) && cnt[j] == 1 ==> results[j] == slotOf(outV[j], outE[j])
+//@   ensures [C07] forall j int :: 0 <= j && j < len(items) ==> cnt[j] == 0 || cnt[j] == 1
+//@   ensures [C07] errorHandling != "stop" && !cancelled ==> (forall j int :: 0 <= j && j < len(items) ==> cnt[j] == 1)
+//@   ensures [C09,C11] forall j int :: 0 <= j && j < len(items) && cnt[j] == 0 ==> results[j].err != nil
+//@   ensures [C06] forall j int :: 0 <= j && j < len(items) ==> items[j] == old(items[j])
+
+// batch configuration of a node as runBatch reads it (zero / "continue" for foreign node types)
+//@ spec func batchBase(n Node) *BaseNode = isType(n, *BaseNode) ? n.(*BaseNode) : (isType(n, *CustomNode) ? n.(*CustomNode).BaseNode : (isType(n, *BatchNode) ? n.(*BatchNode).CustomNode.BaseNode : (isType(n, *BatchNodeBuilder) ? n.(*BatchNodeBuilder).BatchNode.CustomNode.BaseNode : nil)))
+//@ spec func batchConc(n Node) int = batchBase(n) == nil ? 0 : batchBase(n).batchConcurrency
+//@ spec func batchMode(n Node) string = batchBase(n) == nil ? "continue" : (batchBase(n).batchErrorHandling == "" ? "continue" : batchBase(n).batchErrorHandling)
+// the node's embedded pointers are set (true for every node built by the package's constructors)
+//@ spec func okBatchNode(n Node) bool = (isType(n, *BaseNode) ==> n.(*BaseNode) != nil) && (isType(n, *CustomNode) ==> n.(*CustomNode) != nil && n.(*CustomNode).BaseNode != nil) && (isType(n, *BatchNode) ==> n.(*BatchNode) != nil && n.(*BatchNode).CustomNode != nil && n.(*BatchNode).CustomNode.BaseNode != nil) && (isType(n, *BatchNodeBuilder) ==> n.(*BatchNodeBuilder) != nil && n.(*BatchNodeBuilder).BatchNode != nil && n.(*BatchNodeBuilder).BatchNode.CustomNode != nil && n.(*BatchNodeBuilder).BatchNode.CustomNode.BaseNode != nil)
+// prep value -> item list: []Result as is, []any / ToSlice elements wrapped once each, order preserved
+//@ spec func normalized(its []Result, pv any, ts []any) bool = (isType(pv, []Result) ==> its == pv.([]Result)) && (isType(pv, []any) ==> len(its) == len(pv.([]any)) && (forall j int :: 0 <= j && j < len(its) ==> its[j] == Result{pv.([]any)[j], nil})) && (!isType(pv, []Result) && !isType(pv, []any) ==> len(its) == len(ts) && (forall j int :: 0 <= j && j < len(its) ==> its[j] == Result{ts[j], nil}))
+
+//@ spec func emptyPrep(pv any, ts []any) bool = (isType(pv, []Result) ==> len(pv.([]Result)) == 0) && (isType(pv, []any) ==> len(pv.([]any)) == 0) && (!isType(pv, []Result) && !isType(pv, []any) ==> len(ts) == 0)
+//@ func runBatch(ctx, node, shared) (act, err)
+//@   requires node != nil && ctx != nil && okBatchNode(node)
+//@   havoc user
+//@   ghost ph int = 0; pv any = nil; perr error = nil; ts []any = slice(0, 0, 0, 0); gItems []Result = slice(0, 0, 0, 0); gRes []Result = slice(0, 0, 0, 0)
+//@   ghost nPost int = 0; postAct Action = ""; postErr error = nil; i int = 0
+//@   on call Node.Prep(n, c, s) returns (v, e)
+//@     requires [C06] n == node && c == ctx && s == shared && ph == 0
+//@     effect ph = 1; pv = v; perr = e
+//@   on call ToSlice(v) returns (s)
+//@     requires [C06] ph == 1 && v == pv
+//@     effect ts = s
+//@   on call runBatchSequential(c, n, its, rs, eh)
+//@     requires [C06] ph == 1 && perr == nil && c == ctx && n == node && normalized(its, pv, ts) && len(its) > 0
+//@     requires [C06] len(rs) == len(its) && fresh(sarr(rs))
+//@     requires [C08] batchConc(node) <= 0
+//@     requires [C09] eh == batchMode(node)
+//@     effect ph = 2; gItems = its; gRes = rs
+//@   on call runBatchConcurrent(c, n, its, rs, k, eh)
+//@     requires [C06] ph == 1 && perr == nil && c == ctx && n == node && normalized(its, pv, ts) && len(its) > 0
+//@     requires [C06] len(rs) == len(its) && fresh(sarr(rs))
+//@     requires [C08] k == batchConc(node) && k > 0
+//@     requires [C09] eh == batchMode(node)
+//@     effect ph = 2; gItems = its; gRes = rs
+//@   on call Node.Post(n, c, s, p, r) returns (a, e)
+//@     requires [C06] n == node && c == ctx && s == shared && nPost == 0 && perr == nil && isType(p, []Result) && isType(r, []Result)
+//@     requires [C06] ph == 2 ==> p.([]Result) == gItems && r.([]Result) == gRes
+//@     requires [C06] ph == 1 ==> emptyPrep(pv, ts) && len(p.([]Result)) == 0 && len(r.([]Result)) == 0
+//@     requires [C06] ph == 1 || ph == 2
+//@     effect ph = 3; nPost = 1; postAct = a; postErr = e
+//@   loop 1 init i = 0
+//@   loop 1 step i++
+//@   loop 1 invariant [C06] 0 <= i && i <= len(pv.([]any)) && len(made([]Result, 1)) == len(pv.([]any)) && soff(made([]Result, 1)) == 0 && framed([]any)
+//@   loop 1 invariant [C06] forall j int :: 0 <= j && j < i ==> made([]Result, 1)[j] == Result{pv.([]any)[j], nil}
+//@   loop 2 init i = 0
+//@   loop 2 step i++
+//@   loop 2 invariant [C06] 0 <= i && i <= len(ts) && len(made([]Result, 2)) == len(ts) && soff(made([]Result, 2)) == 0 && framed([]any)
+//@   loop 2 invariant [C06] forall j int :: 0 <= j && j < i ==> made([]Result, 2)[j] == Result{ts[j], nil}
+//@   ensures [C06] perr == nil ==> nPost == 1
+//@   ensures [C04] perr != nil ==> err != nil && Is(err, perr) && nPost == 0 && ph == 1
+//@   ensures [C04] nPost == 1 && postErr != nil ==> err != nil && Is(err, postErr)
+//@   ensures [C04,C06] err == nil <==> nPost == 1 && postErr == nil
+//@   ensures [C18] (err == nil && act != "") || (err != nil && act == "")
+//@   ensures [C18] err == nil ==> act == norm(postAct)
+
+//@ func runBatchConcurrent(ctx, node, items, results, concurrency, errorHandling) ()
+//@   trusted
+//@   havoc user
+//@   assigns contents(results)
